@@ -1,10 +1,13 @@
 ----------------------------- MODULE CliReport -----------------------------
 (***************************************************************************)
 (* C01 at the command line: what `habutax solve` PRINTS must be the        *)
-(* solver's verdict: "Successfully solved!" iff the solve succeeded;       *)
-(* otherwise "Failed to solve" with exactly the unimplemented lines, the   *)
-(* missing inputs and the blocking lines named; an aborting solve ends in  *)
-(* an error and prints neither.                                            *)
+(* solver's verdict.  The reading is independent of the wording: a failed  *)
+(* solve must not be announced as a success and must NAME every            *)
+(* unimplemented line, missing input and blocking line somewhere in its    *)
+(* report; a successful one must not be announced as a failure; an         *)
+(* aborting solve ends in an error and announces no success.               *)
+(* said_solved / said_failed: the report speaks of success / of failure in *)
+(* any phrasing; p_*: the blamed names that occur in the report.           *)
 (* Observations (HV_CLI_FILE): [oid, abort, solved, unimpl, missing,       *)
 (*  blocked (Seqs of names: the in-process solver's result), exc (class    *)
 (*  that escaped the command or ""), said_solved, said_failed,             *)
@@ -19,12 +22,11 @@ Judge(o) ==
        (IF o.exc = "" THEN "the solver aborts but the command ends normally"
         ELSE IF o.said_solved THEN "the command printed success although the solve aborted" ELSE "")
   ELSE IF o.exc # "" THEN "the command failed with " \o o.exc \o " although the solver returns"
-  ELSE IF o.solved /\ ~o.said_solved THEN "solved, but the command does not say so"
-  ELSE IF ~o.solved /\ o.said_solved THEN "the command printed Successfully solved! for a failed solve"
-  ELSE IF ~o.solved /\ ~o.said_failed THEN "failed solve without the failure report"
-  ELSE IF ~o.solved /\ S(o.p_unimpl) # S(o.unimpl) THEN "the unimplemented lines printed differ from the solver's"
-  ELSE IF ~o.solved /\ S(o.p_missing) # S(o.missing) THEN "the missing inputs printed differ from the solver's"
-  ELSE IF ~o.solved /\ S(o.p_blocked) # S(o.blocked) THEN "the blocking lines printed differ from the solver's"
+  ELSE IF o.solved /\ o.said_failed /\ ~o.said_solved THEN "solved, but the command reports a failure"
+  ELSE IF ~o.solved /\ o.said_solved THEN "the command announces success for a failed solve"
+  ELSE IF ~o.solved /\ S(o.p_unimpl) # S(o.unimpl) THEN "an unimplemented line is not named in the report"
+  ELSE IF ~o.solved /\ S(o.p_missing) # S(o.missing) THEN "a missing input is not named in the report"
+  ELSE IF ~o.solved /\ S(o.p_blocked) # S(o.blocked) THEN "a blocking line is not named in the report"
   ELSE ""
 
 VARIABLE k
